@@ -8,9 +8,10 @@ Line-protocol front end of the C14 model (requests after the leading `C14` field
   valid  <path>                  → true|false TAB nameOK
   file   <root> <name> <ext>     → hex(fileName) TAB underRoot
   run    <fuel> <limit> <root> <exts> <keys> <files> <main>
-         → out TAB ticks TAB opens TAB failed TAB reent TAB spawns TAB misbinds TAB nofuel TAB dump
+         → out TAB ticks TAB opens TAB failed TAB cycles TAB spawns TAB nofuel TAB dump
            TAB runsOnce TAB oneObjectPerName TAB globalsDisjoint TAB reruns(name:cause,...)
            TAB codeInj TAB codecache(name:codeid,... in compilation order)
+         (cycles: the imports refused as cyclic, in order)
          (dump: module values are m<object>:<name>:c<code identity>)
   runshared  same arguments and reply, but for an importer that shares one code object between
          modules with equal text (`shareByText`; NOT the unchanged code — diagnosis only)
@@ -101,8 +102,8 @@ def doRun (shared : Bool) (fuel limit root exts keys files main : String) : Stri
     let r := run env fuel main
     let st := r.2
     let d := dump st keys 5 "main" 0
-    "\t".intercalate [showOut r.1.1, showCsv st.ticks, showCsv st.opens, showCsv st.failed, showCsv st.reent,
-      toString st.spawns, toString st.misbinds, toString st.nofuel,
+    "\t".intercalate [showOut r.1, showCsv st.ticks, showCsv st.opens, showCsv st.failed, showCsv st.cycles,
+      toString st.spawns, toString st.nofuel,
       (if d.isEmpty then "-" else ",".intercalate d),
       toString (runsOnce st), toString (oneObjectPerName st), toString (globalsDisjoint st),
       (if st.reruns.isEmpty then "-" else ",".intercalate (st.reruns.map fun r => hexOrTilde r.1 ++ ":" ++ toString r.2)),
@@ -167,7 +168,7 @@ def handle : List String → String
       let r := run env fuel main
       let st := r.2
       let d := dump st keys 5 "main" 0
-      "\t".intercalate [showOut r.1.1,
+      "\t".intercalate [showOut r.1,
         showCsv (st.ticks.map fun n => (fileOf env n env.exts).getD (63 :: n)),
         toString (runsOncePerFile env st), toString (oneObjectPerFile env st),
         (if d.isEmpty then "-" else ",".intercalate d)]
